@@ -166,4 +166,4 @@ def patterns(names):
     names = list(names)
     base = [st.sampled_from(names)] if names else []
     glob = st.sampled_from(["*", "A*", "t1*", "t?", "?", "[AB]*", "*_*", "nomatch*", "t1", "B_?", "[!A]*", "*1"])
-    return st.lists(st.one_of(*base, glob), max_size=3)
+    return st.lists(st.one_of(*base, glob), min_size=1, max_size=3)
